@@ -1,7 +1,6 @@
 (** C10 — invariant of Client/Mux.v and its consequences, for ALL interleavings
     (induction over [reach]). *)
 From Coq Require Import Arith List Bool Lia.
-From Hammer Require Import Tactics.
 From P9V Require Import Client.Mux.
 Import ListNotations.
 
@@ -528,7 +527,7 @@ Lemma inv_setthr m l : Inv (mkst l (pend m) (full m) (token m) (retired m) (dead
 Proof. auto. Qed.
 
 (** ---- every step keeps the invariant: the code as fixed (dca25c9, 79e8d00), ARBITRARY peer ---- *)
-Theorem step_inv m a m' : Inv m -> step true true true m a = Some m' -> Inv m'.
+Theorem step_inv mk m a m' : Inv m -> step true true true mk m a = Some m' -> Inv m'.
 Proof.
   intros HI. destruct a as [i t s|i|i|i|i|i|i t' ok|i ok|]; cbn [step].
   - destruct (get (thr m) i) eqn:Hi; try discriminate.
@@ -555,7 +554,8 @@ Proof.
     + intros _ j Hj. exfalso. eapply I_tok_free; eauto.
     + intros _. left. exact I.
   - destruct (get (thr m) i) eqn:Hi; try discriminate. intros E; inversion E; subst.
-    eapply broadcast_ok; eauto. exact I.
+    assert (HIb : Inv (broadcast m i t s)) by (eapply broadcast_ok; eauto; exact I).
+    destruct mk; [now apply inv_kill|exact HIb].
   - destruct (get (thr m) i) eqn:Hi; try discriminate. destruct (dead m); [discriminate|].
     destruct (lookup t' (pend m)) as [s'|] eqn:Hl.
     + destruct ok; cbn [negb].
@@ -585,14 +585,14 @@ Proof.
   - intros E; inversion E; subst. now apply inv_kill.
 Qed.
 
-Theorem reach_inv n m : reach true true true n m -> Inv m.
+Theorem reach_inv mk n m : reach true true true mk n m -> Inv m.
 Proof. induction 1; [apply inv_init|eapply step_inv; eauto]. Qed.
 
-Lemma run_reach wd k c n tr : forall m m', reach wd k c n m -> run wd k c m tr = Some m' -> reach wd k c n m'.
+Lemma run_reach wd k c mk n tr : forall m m', reach wd k c mk n m -> run wd k c mk m tr = Some m' -> reach wd k c mk n m'.
 Proof.
   induction tr as [|a r IH]; intros m m' Hm; cbn.
   - intros E; inversion E; subst; auto.
-  - destruct (step wd k c m a) as [m1|] eqn:Hs; [|discriminate]. apply IH. eapply reach_step; eauto.
+  - destruct (step wd k c mk m a) as [m1|] eqn:Hs; [|discriminate]. apply IH. eapply reach_step; eauto.
 Qed.
 
 (** ---- consequences ---- *)
@@ -605,15 +605,15 @@ Definition fatal_action (m : mst) (a : action) : Prop :=
   | _ => False
   end.
 
-Theorem fail_all n m a m' :
-  reach true true true n m -> fatal_action m a -> step true true true m a = Some m' ->
+Theorem fail_all mk n m a m' :
+  reach true true true mk n m -> fatal_action m a -> step true true true mk m a = Some m' ->
   pend m' = [] /\ forall t0 s0, In (t0, s0) (pend m) -> full m' s0 = Some RFail.
 Proof.
-  intros Hre Hf Hs. pose proof (reach_inv _ _ Hre) as HI.
+  intros Hre Hf Hs. pose proof (reach_inv _ _ _ Hre) as HI.
   destruct a as [i t s|i|i|i|i|i|i t' ok|i ok|]; cbn in Hf; try contradiction; cbn [step] in Hs.
   - destruct (get (thr m) i) eqn:Hi; try discriminate. inversion Hs; subst.
     destruct (broadcast_ok m i t s _ HI Hi I eq_refl) as [Hc _].
-    destruct (broadcast_fails_all m i t s Hc) as (A & _ & _ & _ & _ & B). auto.
+    destruct (broadcast_fails_all m i t s Hc) as (A & _ & _ & _ & _ & B). destruct mk; cbn [pend full]; auto.
   - destruct (get (thr m) i) eqn:Hi; try discriminate. destruct (dead m); [discriminate|].
     destruct (broadcast_ok m i t s _ HI Hi I eq_refl) as [Hc _].
     destruct (broadcast_fails_all m i t s Hc) as (A & _ & _ & _ & _ & B).
@@ -625,14 +625,14 @@ Proof.
     destruct (broadcast_fails_all m i t s Hc) as (A & _ & _ & _ & _ & B). auto.
 Qed.
 
-Theorem no_stuck n m i t s :
-  reach true true true n m -> get (thr m) i = TWait t s ->
-  (exists r, full m s = Some r /\ routed i t s r /\ step true true true m (AWaitDone i) <> None) \/
+Theorem no_stuck mk n m i t s :
+  reach true true true mk n m -> get (thr m) i = TWait t s ->
+  (exists r, full m s = Some r /\ routed i t s r /\ step true true true mk m (AWaitDone i) <> None) \/
   (In (t, s) (pend m) /\ full m s = None /\
-   ((token m = false /\ step true true true m (AWaitToken i) <> None) \/
+   ((token m = false /\ step true true true mk m (AWaitToken i) <> None) \/
     (token m = true /\ exists j, j <> i /\ holder (get (thr m) j)))).
 Proof.
-  intros Hre Hi. pose proof (reach_inv _ _ Hre) as HI.
+  intros Hre Hi. pose proof (reach_inv _ _ _ Hre) as HI.
   assert (Hl : live (get (thr m) i) = Some (t, s)) by now rewrite Hi.
   destruct (I_live m HI _ _ _ Hl) as [Hin|(r & Hf & Hrt)].
   - right. destruct (I_pend m HI _ _ Hin) as [He _]. split; auto. split; auto.
@@ -644,9 +644,9 @@ Proof.
 Qed.
 
 (** the holder of the token is never stuck inside the client: a receive error / a failing body read is always a step *)
-Theorem holder_steps wd k c m i :
+Theorem holder_steps wd k c mk m i :
   holder (get (thr m) i) ->
-  step wd k c m (ARecvErr i) <> None \/ step wd k c m (ABody i false) <> None.
+  step wd k c mk m (ARecvErr i) <> None \/ step wd k c mk m (ABody i false) <> None.
 Proof.
   destruct (get (thr m) i) eqn:Hi; cbn; try contradiction; intros _.
   - left. cbn [step]. rewrite Hi. discriminate.
@@ -662,8 +662,8 @@ Definition doomed (m : mst) (i : nat) : Prop :=
   | _ => False
   end.
 
-Lemma doomed_step m a m' i :
-  Inv m -> dead m = true -> doomed m i -> step true true true m a = Some m' ->
+Lemma doomed_step mk m a m' i :
+  Inv m -> dead m = true -> doomed m i -> step true true true mk m a = Some m' ->
   dead m' = true /\ doomed m' i.
 Proof.
   intros HI Hd Hdm Hs. unfold doomed in *.
@@ -714,7 +714,8 @@ Proof.
     inversion Hs; subst; clear Hs. cbn [dead thr full]. split; auto.
     assert (Hr : j < length (thr m)) by (apply get_in_range; rewrite Hj; discriminate).
     rewrite get_upd by auto. destruct (Nat.eqb_spec i j) as [->|]; auto. now rewrite Hj in Hdm.
-  - destruct (get (thr m) j) eqn:Hj; try discriminate. inversion Hs; subst. eapply Hbc; eauto. exact I.
+  - destruct (get (thr m) j) eqn:Hj; try discriminate. inversion Hs; subst.
+    destruct (Hbc j t s _ Hj I eq_refl) as [A B]. destruct mk; cbn [dead thr full]; auto.
   - destruct (get (thr m) j) eqn:Hj; try discriminate. rewrite Hd in Hs. discriminate.
   - destruct (get (thr m) j) eqn:Hj; try discriminate. destruct ok.
     + rewrite Hd in Hs. discriminate.
@@ -722,21 +723,21 @@ Proof.
   - inversion Hs; subst. cbn [dead thr full]. auto.
 Qed.
 
-Theorem later_fail n m i : reach true true true n m -> dead m = true -> get (thr m) i = TIdle ->
-  forall tr m' t s r, run true true true m tr = Some m' -> get (thr m') i = TDone t s r -> r = RFail.
+Theorem later_fail mk n m i : reach true true true mk n m -> dead m = true -> get (thr m) i = TIdle ->
+  forall tr m' t s r, run true true true mk m tr = Some m' -> get (thr m') i = TDone t s r -> r = RFail.
 Proof.
   intros Hre Hd Hi tr.
   assert (Hdm : doomed m i) by (unfold doomed; now rewrite Hi).
-  pose proof (reach_inv _ _ Hre) as HI. clear Hre Hi.
+  pose proof (reach_inv _ _ _ Hre) as HI. clear Hre Hi.
   revert m Hd Hdm HI. induction tr as [|a r IH]; intros m Hd Hdm HI m' t s r0; cbn.
   - intros E; inversion E; subst. intros Hdone. unfold doomed in Hdm. now rewrite Hdone in Hdm.
-  - destruct (step true true true m a) as [m1|] eqn:Hs; [|discriminate].
-    destruct (doomed_step _ _ _ _ HI Hd Hdm Hs) as [Hd1 Hdm1].
+  - destruct (step true true true mk m a) as [m1|] eqn:Hs; [|discriminate].
+    destruct (doomed_step _ _ _ _ _ HI Hd Hdm Hs) as [Hd1 Hdm1].
     apply IH; auto. eapply step_inv; eauto.
 Qed.
 
 (** once dead, always dead; and a dead connection delivers nothing *)
-Lemma dead_forever wd k c m a m' : dead m = true -> step wd k c m a = Some m' -> dead m' = true.
+Lemma dead_forever wd k c mk m a m' : dead m = true -> step wd k c mk m a = Some m' -> dead m' = true.
 Proof.
   intros Hd. destruct a; cbn [step];
     repeat match goal with
@@ -754,7 +755,7 @@ Definition trace_stale : list action :=
   [AStart 0 1 0; ASendFail 0; AStart 1 2 0; ASendOk 1; AWaitToken 1; ARecvErr 1].
 
 Lemma stale_blocks :
-  exists m, run false false true (init 2) trace_stale = Some m /\ get (thr m) 1 = TBlocked.
+  exists m, run false false true false (init 2) trace_stale = Some m /\ get (thr m) 1 = TBlocked.
 Proof. eexists. split; [vm_compute; reflexivity|reflexivity]. Qed.
 
 (** 79e8d00 reverted (handleOne does not re-check): a reply for a tag whose send is failing: nil *response *)
@@ -765,12 +766,12 @@ Definition trace_race : list action :=
    ABody 1 true].        (* completion re-reads pending[1] *)
 
 Lemma race_panics :
-  exists m, run true false false (init 2) trace_race = Some m /\ get (thr m) 1 = TPanic.
+  exists m, run true false false false (init 2) trace_race = Some m /\ get (thr m) 1 = TPanic.
 Proof. eexists. split; [vm_compute; reflexivity|reflexivity]. Qed.
 
 (** with the fix the frame is dropped and the receiver goes on *)
 Lemma race_dropped :
-  exists m, run true true true (init 2) trace_race = Some m /\ get (thr m) 1 = TWait 2 1 /\
+  exists m, run true true true false (init 2) trace_race = Some m /\ get (thr m) 1 = TWait 2 1 /\
             get (thr m) 0 = TDone 1 0 RFail /\ token m = false.
 Proof. eexists. split; [vm_compute; reflexivity|repeat split]. Qed.
 
@@ -781,5 +782,31 @@ Definition trace_aba : list action :=
    AStart 2 1 0; ASendOk 2; ABody 1 true; AWaitDone 2].
 
 Lemma aba_foreign :
-  exists m, run true false true (init 3) trace_aba = Some m /\ get (thr m) 2 = TDone 1 0 (ROk 1 0 0).
+  exists m, run true false true false (init 3) trace_aba = Some m /\ get (thr m) 2 = TDone 1 0 (ROk 1 0 0).
 Proof. eexists. split; [vm_compute; reflexivity|reflexivity]. Qed.
+
+(** ---- a connection error reported by recv ---- *)
+
+(** when the receiver remembers it ([mark], the proposed fix fixes/C10-recv-error-not-remembered): every call
+    that has not started yet fails, whatever the peer and the transport do afterwards *)
+Theorem later_fail_after_recv_error n m j m1 i :
+  reach true true true true n m -> step true true true true m (ARecvErr j) = Some m1 -> get (thr m1) i = TIdle ->
+  forall tr m' t s r, run true true true true m1 tr = Some m' -> get (thr m') i = TDone t s r -> r = RFail.
+Proof.
+  intros Hre Hs Hi. apply (later_fail true n m1 i); auto.
+  - eapply reach_step; eauto.
+  - cbn [step] in Hs. destruct (get (thr m) j); try discriminate. inversion Hs; subst. reflexivity.
+Qed.
+
+(** the code as it is: the error is forgotten; a later call is sent and waits in recv on the connection the
+    client itself has declared broken (and hangs if the desynchronised stream does not happen to fail again) *)
+Definition trace_forgotten : list action :=
+  [AStart 0 1 0; ASendOk 0; AWaitToken 0; ARecvErr 0; AWaitDone 0; AStart 1 1 0; ASendOk 1; AWaitToken 1].
+
+Lemma recv_error_forgotten :
+  exists m, run true true true false (init 2) trace_forgotten = Some m /\
+            get (thr m) 0 = TDone 1 0 RFail /\ get (thr m) 1 = TRecv 1 0 /\ dead m = false.
+Proof. eexists. split; [vm_compute; reflexivity|repeat split]. Qed.
+
+Lemma recv_error_remembered : run true true true true (init 2) trace_forgotten = None.
+Proof. vm_compute. reflexivity. Qed.
